@@ -20,7 +20,7 @@ FAMS = gen.ALL_FAMILIES
 
 
 def floors(tier):
-    return {"states_checked": 3000, "results_checked": 500, "restarts_checked": 100, "accepted_not_last_trial": 10, "scaled_runs": 30, "runs_with_reused_gradient_buffer": 80, "runs_with_logger": 200,
+    return {"states_checked": 3000, "results_checked": 500, "restarts_checked": 100, "chains_whose_first_leg_returns_before_any_gradient": 40, "accepted_not_last_trial": 10, "scaled_runs": 30, "runs_with_reused_gradient_buffer": 80, "runs_with_logger": 200,
             "callback_states_reinspected_after_the_run": 3000, "runs_from_a_start_beyond_unit_step_resolution": 12, "runs_that_could_not_leave_x0": 4, "results_with_non_finite_gradient": 10, "__nontrivial__": 40}
 
 
@@ -64,7 +64,9 @@ def cases(tier, seed):
             cfg["maxiter"] = int(gen.pick(rng, [4, 8, 30]))
         if cfg["jac"] == "callable" and rng.random() < 0.3:
             cfg["reuse_grad_buffer"] = True  # the user's gradient fills and returns one preallocated array
-        yield {"problem": ps, "cfg": cfg, "chain": chain}
+        # (the first leg may be one that returns at once - a target its start point already meets, no gradient computed - and the chain
+        #  goes on from that result)
+        yield {"problem": ps, "cfg": cfg, "chain": chain, "target_first": bool(chain and i % 5 == 3 and "scaler" not in cfg)}
 
 
 _AD = [0, False]
@@ -148,6 +150,9 @@ def run(spec):
     kept = []  # results the user keeps: they must stay coherent whatever is done with them later
     for step in range(1 + len(spec["chain"])):
         c = dict(cfg, maxiter=maxiter, x0_same_object=True)
+        if spec.get("target_first") and step == 0:
+            c["ftarget"] = 1e300
+            out.count("chains_whose_first_leg_returns_before_any_gradient")
         ad0 = _AD[0]
         cb_ad = []
         hooks = {"on_cb": (lambda i, xk, st: cb_ad.append(_AD[0] - ad0) and False)}
